@@ -8,7 +8,7 @@
    iter_index t it = number of items before position it (= distance from begin).
    All statements hold for every 1 <= maxCapacity <= 255, every capacityStep, blockCount, search strategy. *)
 From Coq Require Import ZArith List.
-From C02 Require Import BTreeModel BTreeParams BTreeBase SplitSeg IndexTable BTreeSearch BTreeIter BTreeAdd BTreeRemove BTreeCtx BTreeRemove2 BTreeTrack BTreeRemove3 BTreeRange BTreeTop BTreeHist BTreeRemoveTop BTreeRangeTop BTreeHist2 BTreeMerge BTreeFast BTreeFast2 BTreeInsRange BTreeHist3 NodeOps NodeScript BTreeDecide BTreeSplitGen GenPrimsC02 Gen_TreeFacts BTreeFastDecide BTreeSearchGen ProtoSyntaxC02 Gen_TreeProto ProtoSemC02 ProtoProofsC02 ProtoIterC02.
+From C02 Require Import BTreeModel BTreeParams BTreeBase SplitSeg IndexTable BTreeSearch BTreeIter BTreeAdd BTreeRemove BTreeCtx BTreeRemove2 BTreeTrack BTreeRemove3 BTreeRange BTreeTop BTreeHist BTreeRemoveTop BTreeRangeTop BTreeHist2 BTreeMerge BTreeFast BTreeFast2 BTreeInsRange BTreeHist3 NodeOps NodeScript BTreeDecide BTreeSplitGen GenPrimsC02 Gen_TreeFacts BTreeFastDecide BTreeSearchGen ProtoSyntaxC02 Gen_TreeProto ProtoSemC02 ProtoProofsC02 ProtoIterC02 ProtoMoveC02.
 From Coq Require String.
 From MomoCommon Require Import GenPrelude.
 Import ListNotations.
@@ -94,8 +94,9 @@ Print Assumptions C02_split_segments_are_insert_then_cut.
    raw slots and the node keeps a permutation table; constructing the new item in slot indexes[count] and then
    pvAcceptBackItem(index) (copy_backward on the table) leaves the table a permutation of the slot numbers and makes the
    LOGICAL item sequence (slot indexes[0], indexes[1], ...) exactly insert_at index x of the old one - which is what
-   the abstract model (items as a list) does.  (Removal permutes the table symmetrically; modelled as remove_idx, not
-   proved; the harness checks on the real indexed nodes that the table is a permutation.) *)
+   the abstract model (items as a list) does.  (Removal: C02_indexed_node_remove_is_remove_at; all sequences of node operations:
+   C02_indexed_node_history_refines; the real generated table equals this hand table: C02_generated_*_table_is_hand_table; the harness
+   additionally checks on the real indexed nodes that the table is a permutation.) *)
 Theorem C02_indexed_node_accept_is_insert_at :
   forall (n : inode) (x : Z) (index : nat),
     winv n -> (index <= icount n)%nat -> (icount n < length (idx n))%nat ->
@@ -311,8 +312,8 @@ Print Assumptions C02_right_hint_keeps_sorted.
    Extracts it from the source).  Both containers stay WF, the destination stays sorted and the pair of sequences
    equals the list-level stable merge spec_merge: every source item goes to ITS upper bound in the destination
    (destination items before equivalent source items), refused duplicates (unique keys) stay in the source.
-   NOT proved: pvMergeToLinear and the path selection (both modelled and compared with the real code incl. node
-   shapes on every run), pvMergeFast (not modelled; covered by the oracle only). *)
+   (Kept under its historical name `_partial`: it is the statement for the generic path alone.  The other paths are proved further
+   down: C02_merge_linear_refines, C02_merge_fast_refines, and all paths together in C02_merge_to_refines.) *)
 Theorem C02_merge_generic_refines_partial :
   forall (maxCap stepRaw blockCount : nat) (linear multi : bool), (1 <= maxCap <= 255)%nat ->
   forall src dst : tree, twf maxCap src -> twf maxCap dst -> sorted multi (contents dst) ->
@@ -499,7 +500,11 @@ Theorem C02_node_layouts_same_asserts :
 Proof. exact same_code_stuck. Qed.
 Print Assumptions C02_node_layouts_same_asserts.
 
-(* FRAME: capacity and leaf flag are functions of mMemPoolIndex alone, which no node operation returns as written *)
+(* capacity and leaf flag are functions of mMemPoolIndex alone (they ignore count, table and children).  That the node operations do
+   not WRITE mMemPoolIndex is not this theorem: it is the shape of the result tuple of the generated AcceptBackItem / Remove (cxx2coq
+   returns exactly the fields its write analysis found written: count, table / item array, child array), which the statements of
+   C02_node_accept_*_full_effect / C02_node_remove_*_full_effect fix - a version of the real function that assigns mMemPoolIndex
+   gets a 5-tuple and no longer type-checks against them (mutant G1). *)
 Theorem C02_node_ops_frame_capacity_and_leaf_flag :
   forall leafPools maxCap step mpi cnt t ch cnt' t' ch',
     Gen_NodeOpsI.GetCapacity leafPools maxCap step mpi cnt t ch = Gen_NodeOpsI.GetCapacity leafPools maxCap step mpi cnt' t' ch' /\
@@ -744,6 +749,21 @@ Theorem C02_iterator_decrement_at_begin_is_stuck_on_examples :
   andb (andb (decr_at_begin_is_stuck ex_t0) (decr_at_begin_is_stuck ex_t1)) (decr_at_begin_is_stuck ex_t2) = true.
 Proof. exact iter_decr_at_begin_stuck_on_examples. Qed.
 Print Assumptions C02_iterator_decrement_at_begin_is_stuck_on_examples.
+
+(* review-fix round: one more general piece of the iterator theorem.  The loop of the REAL TreeSetConstIterator::pvMove (dumped
+   statement tree, interpreted; move_loop = iter_pvMove without its leading MOMO_ASSERT(mNode->IsLeaf())), started at ANY node of ANY
+   well-formed tree, ends normally with (mNode, mItemIndex) = the bottom-up climb `up` - which is the hand model's climb
+   (C02_bottom_up_climb_is_model_climb) and the last step of next (C02_next_is_bottom_up_zipper).  Still examples-only: the leaf step /
+   leftmost descent of operator++ in the interpreter, and operator--. *)
+Theorem C02_pvMove_loop_is_bottom_up_climb :
+  forall (maxCap : nat) (linear : bool) (P : Z -> bool) (r : node) (calls : String.string -> env -> option env)
+         (rq : list nat) (e : env) (k : nat) (m : node) (d : nat),
+    shape maxCap d r -> node_at (rev rq) r = Some m ->
+    e k_mNode = Some (VPtr (Some (rev rq))) ->
+    exists e', ProtoSemC02.exec linear P r calls (12 + (k + length rq)) e move_loop = RNormal e' /\
+      e' k_mNode = Some (VPtr (Some (fst (up r (rev rq))))) /\ e' k_mItemIndex = Some (VNum (Z.of_nat (snd (up r (rev rq))))).
+Proof. exact move_loop_is_up. Qed.
+Print Assumptions C02_pvMove_loop_is_bottom_up_climb.
 
 (* non-vacuity: a concrete reachable state (maxCapacity 2, ten insertions with duplicates) has height 2 *)
 Theorem C02_nonvacuous_example :
